@@ -165,6 +165,29 @@ def model_check(module, cfg, workdir, workers=4, timeout=1500, extra=(), expect_
     return res
 
 
+def split_trace(path, k):
+    """Cut a trace into at most k files at `reset` events; returns the list of paths."""
+    if k <= 1:
+        return [path]
+    lines = [x for x in open(path) if x.strip()]
+    cuts = [i for i, x in enumerate(lines) if '"op":"reset"' in x]
+    if not cuts:
+        return [path]
+    target = max(1, len(lines) // k)
+    bounds = [0]
+    for c in cuts:
+        if c - bounds[-1] >= target and len(bounds) < k:
+            bounds.append(c)
+    bounds.append(len(lines))
+    out = []
+    for j in range(len(bounds) - 1):
+        pp = "%s.part%d" % (path, j)
+        with open(pp, "w") as f:
+            f.writelines(lines[bounds[j]:bounds[j + 1]])
+        out.append(pp)
+    return out
+
+
 def tlc_prints(out, tag):
     """Collect PrintT(<<tag, json>>) lines from TLC output."""
     res = []
@@ -245,11 +268,19 @@ class Check:
         return r
 
     # ---- trace validation
-    def validate(self, traces, module="TraceAll", jobs=6, script_of=None):
-        """traces: list of (label, trace_path). Validates in parallel; records mismatches as violations."""
+    def validate(self, traces, module="TraceAll", jobs=10, script_of=None, chunks=None):
+        """traces: list of (label, trace_path). Validates in parallel; records mismatches as violations.
+        A trace is cut at `reset` events (which clear the register file) into independent chunks."""
         res = []
+        if chunks is None:
+            chunks = max(1, jobs // max(1, len(traces)))
+        work = []
+        for lab, tp in traces:
+            parts = split_trace(tp, chunks)
+            for k, pp in enumerate(parts):
+                work.append((lab if len(parts) == 1 else "%s#%d" % (lab, k), pp))
         with ThreadPoolExecutor(max_workers=jobs) as ex:
-            futs = [(lab, tp, ex.submit(validate_trace, tp, os.path.join(self.workdir, "tv_" + re.sub(r"[^A-Za-z0-9_.+-]", "_", lab)), module)) for lab, tp in traces]
+            futs = [(lab, tp, ex.submit(validate_trace, tp, os.path.join(self.workdir, "tv_" + re.sub(r"[^A-Za-z0-9_.+#-]", "_", lab)), module)) for lab, tp in work]
             for lab, tp, f in futs:
                 v = f.result()
                 res.append((lab, v))
